@@ -44,7 +44,7 @@ def main():
             out["apply_error"] = o[-500:]
             print(json.dumps(out, indent=1))
             return
-        env = dict(os.environ, PYTHONPATH=wt, PYTHONDONTWRITEBYTECODE="1")
+        env = dict(os.environ, PYTHONPATH=wt, PYTHONDONTWRITEBYTECODE="1", OMP_NUM_THREADS="1", OPENBLAS_NUM_THREADS="1", MKL_NUM_THREADS="1")
         env.pop("PYTREENET_VERIF", None)
         if "--no-tests" not in flags:
             rc, o = sh("/venv/bin/python -m pytest -q -p no:cacheprovider -n 12 tests 2>&1 | tail -15", cwd=wt, env=env)
